@@ -11,7 +11,15 @@ import sympy as sp
 
 from vlib.exprparse import ParseError
 
-class AdjacentNumerals(ParseError):
+class Unreadable(ParseError):
+    """definitely not readable as mathematics (as opposed to: outside this reader's grammar)"""
+
+
+class AdjacentNumerals(Unreadable):
+    pass
+
+
+class FunctionWithoutArgument(Unreadable):
     pass
 
 
@@ -241,7 +249,13 @@ class LatexParser:
             return self.group()
         tok = self.next()
         if tok[0] == "num":
-            return sp.Integer(tok[1][0]) if len(tok[1]) == 1 else sp.Integer(tok[1])
+            if len(tok[1]) > 1:
+                # TeX: an unbraced superscript is ONE token; "x^10" typesets x^1 followed by 0
+                self.p -= 1
+                self.t[self.p] = ("num", tok[1][1:])
+                if not tok[1][0].isdigit():
+                    raise ParseError(f"bad exponent {tok}")
+            return sp.Integer(tok[1][0])
         if tok[0] == "leaf":
             return self.leaf[tok[1]]
         raise ParseError(f"bad exponent {tok}")
@@ -268,7 +282,11 @@ class LatexParser:
             return [e]
         if self.peek() in (("cmd", "left"), ("op", "(")):
             return self.paren()
-        raise ParseError(f"function without argument at {self.peek()}")
+        nx = self.peek()
+        if nx[0] == "end" or (nx[0] == "op" and nx[1] in "+-*/=,)}]^_<>") or nx == ("cmd", "right") or nx[0] == "num":
+            # a function name (possibly with its power) followed by an operator, a closing delimiter, a numeral or nothing
+            raise FunctionWithoutArgument(f"function name followed by {nx[1] if nx[0] != 'end' else 'the end of the formula'!r} instead of its argument")
+        raise ParseError(f"function without bracketed argument at {nx}")
 
     def base(self):
         tok = self.next()
